@@ -365,7 +365,17 @@ def r04g(ctx):
     relay(ctx, "R04g", "FunctionSignal.values is the eager evaluation of its definition; _full_times and _value_window count buffer points alike (= R06d)", "C06", c06.r06d, "R06d", kind="N")
 
 
+def r04h(ctx):
+    """`scaling multiplies every sample`: `sig *= k` on a function-backed signal whose values were already read must not leave the cached
+    values behind -- an in-place update of a component list is covered by a cache clear or a static re-assignment (C06's R06b)."""
+    from . import c06
+    from ._cross import relay
+    relay(ctx, "R04h", "in-place updates of a lazily evaluated signal's components are followed by a cache clear on every path (= R06b)", "C06",
+          lambda c: c06.r06b(c, c06.lazy_classes(c.repo)), "R06b", kind="N")
+
+
 def run(ctx):
+    ctx.guard(r04h)
     ctx.guard(r04g)
     ctx.guard(r04a)
     ctx.guard(r04b)
